@@ -1,7 +1,7 @@
 # C13 - concurrent_priority_queue is a linearizable priority queue.
 #   protocol spec: spec/cont/Aggregator.tla (pending-stack CAS, first pusher handles, handler_busy, two-pass batch handler)
 #   abstract spec: spec/cont/PQAbs.tla; histories of the real queue validated by TLC (TracePQ.tla)
-import os, vlib, contlib
+import os, re, json, vlib, contlib
 SCEN = [
     ('a', 'pq', 'id', ['push:5,pop,push:9', 'push:7,push:3', 'pop,pop,pop']),
     ('dups', 'pq', 'id', ['push:5,push:5,pop', 'pop,push:5', 'push:1,pop,pop']),
@@ -18,11 +18,60 @@ SCEN = [
 ]
 
 
+def batch_replay(res, thorough):
+    """every transition of PQBatch (the transcription of handle_operations / heapify / reheap) applied to the real queue's handler; TracePQBatch is the verdict"""
+    cfg = 'PQBatch_7.cfg' if thorough else 'PQBatch_6.cfg'
+    exe = vlib.build_harness('h_pqbatch', ['cont/h_pqbatch.cpp'], cosched=True)
+    os.makedirs(os.path.join(vlib.BUILD, 'graphs'), exist_ok=True); os.makedirs(os.path.join(vlib.BUILD, 'traces'), exist_ok=True)
+    dot = os.path.join(vlib.BUILD, 'graphs', 'c13-pqbatch.dot')
+    r = vlib.tlc(contlib.SD, 'PQBatch', cfg, dump=dot, deadlock=False, timeout=3000, xmx='24g'); res.add_tlc(r, 'PQBatch:' + cfg); vlib.tlc_must_hold(r, cfg)
+    if r.violation:
+        raise vlib.HarnessFailure('PQBatch violates %s' % r.violation)
+    nodes, edges, init = vlib.parse_dot(dot, ['data', 'lastBatch', 'lastRes'], raw=True); os.unlink(dot)
+
+    def ints(v):
+        return re.findall(r'-?\d+', v)
+    proj = {}
+    for k, v in nodes.items():
+        f = v.split('\x1f')
+        ops = ['0' if m[0] == 'pop' else m[1] for m in re.findall(r'<<"?(pop|push)"?(?:, (\d+))?>>', f[1])]
+        proj[k] = (','.join(ints(f[0])), ','.join(ops), ','.join(ints(f[2])))
+    seen = set(); lines = []
+    for u, outs in edges.items():
+        for (v, lab, arg) in outs:
+            key = (proj[u][0], proj[v][1])
+            if key in seen or not proj[v][1]:
+                continue
+            seen.add(key); lines.append('%s|%s|%s|%s' % (proj[u][0], proj[v][1], proj[v][2], proj[v][0]))
+    tfn = os.path.join(vlib.BUILD, 'graphs', 'c13-pqbatch-%d.trans' % os.getpid()); open(tfn, 'w').write('\n'.join(lines) + '\n')
+    tf = os.path.join(vlib.BUILD, 'traces', 'c13-pqbatch-%d.ndjson' % os.getpid())
+    p = vlib.sh([exe, tfn, tf], timeout=1500); os.unlink(tfn)
+    if p.returncode != 0:
+        raise vlib.HarnessFailure('h_pqbatch failed: %s' % (p.stdout + p.stderr)[-1500:])
+    for l in p.stderr.splitlines()[:4]:
+        if l.startswith('SPEC-DRIFT'):
+            print(l)
+    s = json.loads(p.stdout.strip().splitlines()[-1])
+    evs = vlib.read_trace_file(tf)[0]; os.unlink(tf)
+    # the events are independent of each other: validated in slices, a rejected slice is bisected to its first bad transition
+    execs = [evs[i:i + 400] for i in range(0, len(evs), 400)]
+    def describe(tr):
+        i = vlib.first_unexplained(contlib.SD, 'TracePQBatch', 'TracePQBatch.cfg', tr, 'c13-pqb', linear=True)
+        return ('one batch handled by the real concurrent_priority_queue::handle_operations breaks the queue (result of a pop is not a maximum in any order of the batch, '
+                'an element lost / invented, or the array is no heap afterwards): %s' % json.dumps(tr[i] if i is not None else tr[:2]))
+    vlib.validate_and_report(res, contlib.SD, 'TracePQBatch', 'TracePQBatch.cfg', execs, 'c13-pqbatch', describe, batch=40, sig_fn=lambda tr: 'pqbatch:handler')
+    vlib.log('c13-pqbatch: %d states, %d distinct transitions replayed on the real handler, drift %d' % (r.distinct, s['transitions'], s['drift']))
+    res.extra.update({'handler_transitions_replayed': s['transitions'], 'handler_drift': s['drift']})
+    if s['drift']:
+        print('SPEC-DRIFT property=C13 handle_operations replay: %d transitions disagree with PQBatch.tla' % s['drift'])
+
+
 def run(res, tier, seed):
     thorough = tier != 'quick'
     vlib.model_check(res, contlib.SD, 'MCAggregator', 'Aggregator_P3.cfg')
     if thorough:
         vlib.model_check(res, contlib.SD, 'MCAggregator', 'Aggregator_P3b.cfg', timeout=1500)
+    batch_replay(res, thorough)
     scen = SCEN + ([('f%d' % k, 'pqfault:%d' % k, 'id', ['push:5,push:2,pop', 'push:7,push:3,pop', 'pop,pop,push:4']) for k in range(6, 12)] if thorough else [])
     contlib.run_scenarios(res, 'C13', 'TracePQ', scen, 400 if not thorough else 6000, seed, 'concurrent_priority_queue')
     res.assumptions.append('fault = the k-th element copy construction throws (the element assignment inside try_pop is assumed non-throwing, see DESIGN 4 C13)')
